@@ -113,7 +113,7 @@ class NeverReturns(Exception):
     pass
 
 
-CALL_TIMEOUT = 4.0      # seconds; a call on a 62-vertex graph takes milliseconds
+CALL_TIMEOUT = 4.0      # seconds of CPU time; a call on a 62-vertex graph takes milliseconds
 MAX_HANGS = 3           # after this many calls that did not return, further calls of the run are skipped
 _hangs = [0]
 
@@ -125,16 +125,17 @@ def call_with_timeout(fn, *args):
     def _alarm(signum, frame):
         raise NeverReturns()
 
+    # CPU-time timer: a call that loops burns CPU, a descheduled process on a loaded machine does not
     try:
-        old = signal.signal(signal.SIGALRM, _alarm)
+        old = signal.signal(signal.SIGVTALRM, _alarm)
     except ValueError:          # not the main thread: no guard available
         return fn(*args)
-    signal.setitimer(signal.ITIMER_REAL, CALL_TIMEOUT)
+    signal.setitimer(signal.ITIMER_VIRTUAL, CALL_TIMEOUT)
     try:
         return fn(*args)
     finally:
-        signal.setitimer(signal.ITIMER_REAL, 0)
-        signal.signal(signal.SIGALRM, old)
+        signal.setitimer(signal.ITIMER_VIRTUAL, 0)
+        signal.signal(signal.SIGVTALRM, old)
 
 
 # ---- building inputs -----------------------------------------------------------
@@ -298,7 +299,7 @@ def one_case(ctx, batch, edges, empty_shares, variants, r, kind, deep=False, cer
         except NeverReturns:
             _hangs[0] += 1
             ctx.case((naming, tuple(edges), tuple(key_order)), kind=kind)
-            ctx.oracle_fail("soh-never-returns", "servers_of_happiness did not return within %.0f s (a call takes milliseconds); "
+            ctx.oracle_fail("soh-never-returns", "servers_of_happiness did not return within %.0f s of CPU time (a call takes milliseconds); "
                             "the maximum matching of the relation has size %d" % (CALL_TIMEOUT, want), case=case,
                             expected=want, observed="no result after %.0f s" % CALL_TIMEOUT)
             continue
